@@ -1,5 +1,6 @@
 import SakuraVerif.Gen.Consts
 import SakuraVerif.Lemmas.LexUnknown
+import SakuraVerif.Lemmas.LexCompose
 /-! # C19 — errors carry the right line, never derail the music, and the log stays bounded
 
 Model of the logging primitives of `song.rs` / `lexer.rs` (`Song::add_log`, `get_logs_str`,
@@ -121,6 +122,22 @@ theorem C19_unknown_char_skipped (cs1 cs2 : List Core.Cmd) (hw1 : Lp.pwfL2 cs1) 
     Lx.lex 96 (Lp.printKL2 cs1 (c :: Lp.printKL2 cs2 [])) 0
       = some ⟨Ex2.compileL (cs1 ++ cs2), [⟨0, [Sut.zen2han c], (Lp.printKL2 cs2 []).take 8⟩]⟩ :=
   Lp.lex_unknown_between cs1 cs2 hw1 hw2 c hc hs
+
+/-- the same with **any** text after the character — well-formed or not, inside the modelled subset or not: the program before it
+    compiles to its tokens, the character costs one entry, and the rest is read exactly as it would be read alone -/
+theorem C19_unknown_char_then_anything (cs : List Core.Cmd) (hw : Lp.pwfL2 cs) (c : Nat) (hc : Lp.UnknownCh (Sut.zen2han c)) (hs : Lp.Start c)
+    (X : List Nat) :
+    Lx.lex 96 (Lp.printKL2 cs (c :: X)) 0
+      = (Lx.lexLoop 96 (X.length + 1) X 0 false).map (fun o => ⟨Ex2.compileL cs ++ o.toks, ⟨0, [Sut.zen2han c], X.take 8⟩ :: o.errs⟩) := by
+  unfold Lx.lex
+  rw [Lp.lex_unknown_then_any cs hw c hc hs X]
+  cases Lx.lexLoop 96 (X.length + 1) X 0 false <;> simp [Lp.preL, Lp.addErr, Ex2.compileL, Ex2.lineTok]
+
+/-- **everything after `End` is ignored**: for every program of the block language and every text `X` that does not continue the
+    word, `program End X` lexes to exactly the tokens of the program — nothing of `X` is read and nothing is logged for it -/
+theorem C19_end_ignores_rest (cs : List Core.Cmd) (hw : Lp.pwfL2 cs) (X : List Nat) (hX : Lx.isWordChar (Lx.peek X) = false) :
+    Lx.lex 96 (Lp.printKL2 cs (69 :: 110 :: 100 :: X)) 0 = some ⟨Ex2.compileL cs, []⟩ :=
+  Lp.lex_end_ignores_rest cs hw X hX
 
 /-- one step of the lexer at such a character, from any state of the loop (any line, inside or outside a chord) -/
 theorem C19_unknown_char_step (tb : Int) (f c : Nat) (cs : List Nat) (ln : Int) (harm : Bool) (h : Lp.UnknownCh (Sut.zen2han c)) :
